@@ -299,6 +299,22 @@ func (r *Request) transferError(err error) {
 	}
 }
 
+// accepts reports whether a packet naming this request's handle suits the way the handle was opened.
+// Without this check a READDIR on a file handle was answered with a data packet,
+// a READ or WRITE on a directory handle with a name packet,
+// and a READ on a write-only handle wrote zeros into the file.
+func (r *Request) accepts(pkt requestPacket) bool {
+	switch pkt.(type) {
+	case *sshFxpReadPacket:
+		return r.Method == "Get" || r.Method == "Open"
+	case *sshFxpWritePacket:
+		return r.Method == "Put" || r.Method == "Open"
+	case *sshFxpReaddirPacket:
+		return r.Method == "List"
+	}
+	return true
+}
+
 // called from worker to handle packet/request
 func (r *Request) call(handlers Handlers, pkt requestPacket, alloc *allocator, orderID uint32, maxTxPacket uint32) responsePacket {
 	switch r.Method {
